@@ -1372,7 +1372,10 @@ class LimitDeltas(Algo):
 
     def __call__(self, target):
         tw = target.temp["weights"]
-        all_keys = set(list(target.children.keys()) + list(tw.keys()))
+        # in a fixed order (children first, then new targets): the keys added
+        # below end up in temp["weights"] in this order, and a set of strings
+        # is walked in a different order in every interpreter process
+        all_keys = list(dict.fromkeys(list(target.children.keys()) + list(tw.keys())))
 
         for k in all_keys:
             tgt = tw[k] if k in tw else 0.0
